@@ -181,6 +181,36 @@ pub fn probe(args: &[String]) {
         }
         println!("{}", json!({"progress": k}));
     }
+    // start points where the start-up heuristic finds no finite trial step at all: a cusp (finite density, NaN gradient) and
+    // a point ON the boundary of the support -- for the seeds whose first momentum points outwards every step size fails
+    for k in 0..8u64 {
+        let sd = splitmix(&mut s);
+        let (raw, panic) = crate::nutsrec::run_chain::<B64, f64, _>(crate::nutsrec::Norm2N, vec![0.0, 0.0], 0.8, sd, &[(5, 5)], None);
+        out.push(&json!({"e": "new", "label": format!("NUTS cusp/f64 #{k}")}));
+        if let Some(p) = panic {
+            panics.push(format!("NUTS cusp #{k}: {p}"));
+        }
+        for e in &project(&raw, &crate::nutsrec::OwnN::Norm2, 1e-7).bad {
+            let mut e = e.clone();
+            e["uzero"] = json!(false);
+            e["unchanged"] = json!(!e["moved"].as_bool().unwrap());
+            out.push(&e);
+            rows += 1;
+        }
+        let (raw, panic) = crate::nutsrec::run_chain::<B64, f64, _>(crate::nutsrec::ExpLineN, vec![0.0], 0.8, sd + 1, &[(5, 5)], None);
+        out.push(&json!({"e": "new", "label": format!("NUTS on-the-boundary/f64 #{k}")}));
+        if let Some(p) = panic {
+            panics.push(format!("NUTS on-the-boundary #{k}: {p}"));
+        }
+        for e in &project(&raw, &crate::nutsrec::OwnN::ExpLine, 1e-7).bad {
+            let mut e = e.clone();
+            e["uzero"] = json!(false);
+            e["unchanged"] = json!(!e["moved"].as_bool().unwrap());
+            out.push(&e);
+            rows += 1;
+        }
+        println!("{}", json!({"progress": 100 + k}));
+    }
     let n = out.finish();
     println!("{}", json!({"summary": true, "events": n, "nuts_rows": rows, "panics": panics}));
 }
